@@ -16,6 +16,7 @@ import (
 	"sort"
 	"strings"
 	"sync"
+	"sync/atomic"
 	"time"
 )
 
@@ -39,22 +40,22 @@ func planFor(prop, tier string) plan {
 		if thorough {
 			return plan{batch: 400, secs: secs, detSample: 48, watchdog: "180s"}
 		}
-		return plan{runs: q(24000), batch: 250, detSample: 6, watchdog: "60s"}
+		return plan{runs: q(24000), batch: 250, detSample: 6, watchdog: "25s"}
 	case "C15":
 		if thorough {
 			return plan{batch: 1, secs: secs, detSample: 48, watchdog: "180s"}
 		}
-		return plan{runs: q(20000), batch: 1, detSample: 6, watchdog: "60s"}
+		return plan{runs: q(20000), batch: 1, detSample: 6, watchdog: "25s"}
 	case "C16":
 		if thorough {
 			return plan{batch: 16, race: true, secs: secs, extraSecs: secs / 2, detSample: 48, watchdog: "180s"}
 		}
-		return plan{runs: q(3200), batch: 16, race: true, detSample: 6, watchdog: "60s"}
+		return plan{runs: q(3200), batch: 16, race: true, detSample: 6, watchdog: "25s"}
 	case "C19":
 		if thorough {
 			return plan{batch: 100, secs: secs, detSample: 48, watchdog: "180s"}
 		}
-		return plan{runs: q(16000), batch: 100, detSample: 6, watchdog: "60s"}
+		return plan{runs: q(16000), batch: 100, detSample: 6, watchdog: "25s"}
 	}
 	return plan{}
 }
@@ -72,6 +73,7 @@ type found struct {
 	detail   string
 	batch    [2]uint64
 	race     bool // found by the race build
+	alt      bool // ... the one with the stock sync.Pool
 }
 
 type agg struct {
@@ -115,7 +117,7 @@ func newAgg() *agg {
 		cross: map[uint64]uint64{}, crossRun: map[uint64]uint64{}, fpByRun: map[uint64]uint64{}}
 }
 
-func (a *agg) add(r *RunResult, batch [2]uint64, prop string, raceBuild bool) {
+func (a *agg) add(r *RunResult, batch [2]uint64, prop string, raceBuild, alt bool) {
 	a.mu.Lock()
 	defer a.mu.Unlock()
 	a.runs++
@@ -169,7 +171,7 @@ func (a *agg) add(r *RunResult, batch [2]uint64, prop string, raceBuild bool) {
 		}
 	}
 	for _, v := range r.Violations {
-		a.found = append(a.found, found{other: -1, runIndex: r.RunIndex, sig: v.Sig, detail: v.Detail, batch: batch, race: raceBuild})
+		a.found = append(a.found, found{other: -1, runIndex: r.RunIndex, sig: v.Sig, detail: v.Detail, batch: batch, race: raceBuild, alt: alt})
 	}
 	if r.Trouble != "" {
 		a.trouble = append(a.trouble, fmt.Sprintf("run %d: %s", r.RunIndex, r.Trouble))
@@ -180,6 +182,10 @@ func (a *agg) add(r *RunResult, batch [2]uint64, prop string, raceBuild bool) {
 }
 
 type driverEnv struct {
+	batch      uint64
+	watchdogs  int32 // runs killed by the wall-clock watchdog so far
+	raceAlt    string // race build with the stock sync.Pool ("" = none)
+	useAlt     bool   // single executions use the alternative race build
 	prop, tier string
 	base       uint64
 	raceBin    string
@@ -192,6 +198,9 @@ type driverEnv struct {
 
 func (e *driverEnv) bin(race bool) string {
 	if race {
+		if e.useAlt && e.raceAlt != "" {
+			return e.raceAlt
+		}
 		return e.raceBin
 	}
 	return e.noraceBin
@@ -201,7 +210,12 @@ func (e *driverEnv) bin(race bool) string {
 // run that was in progress if the process died, and the captured stderr.
 func (e *driverEnv) runWorker(a *agg, race bool, from, n uint64, wdog string) (crashedAt int64, stderr string, err error) {
 	logBase := filepath.Join(e.tmp, fmt.Sprintf("race-%d-%d", from, time.Now().UnixNano()))
-	cmd := exec.Command(e.bin(race), "worker", "-prop", e.prop, "-tier", e.tier, "-base", fmt.Sprint(e.base),
+	binary := e.bin(race)
+	alt := false
+	if race && e.raceAlt != "" && e.batch > 0 && (from/e.batch)%2 == 1 {
+		binary, alt = e.raceAlt, true // odd batches: stock sync.Pool
+	}
+	cmd := exec.Command(binary, "worker", "-prop", e.prop, "-tier", e.tier, "-base", fmt.Sprint(e.base),
 		"-from", fmt.Sprint(from), "-n", fmt.Sprint(n), "-watchdog", wdog)
 	cmd.Env = append(os.Environ(), "GORACE=halt_on_error=0 exitcode=0 log_path="+logBase)
 	var errb bytes.Buffer
@@ -246,7 +260,7 @@ func (e *driverEnv) runWorker(a *agg, race bool, from, n uint64, wdog string) (c
 		if jerr := json.Unmarshal(line, &r); jerr != nil {
 			continue
 		}
-		a.add(&r, [2]uint64{from, n}, e.prop, race)
+		a.add(&r, [2]uint64{from, n}, e.prop, race, alt)
 		cur = -1
 	}
 	werr := cmd.Wait()
@@ -431,6 +445,7 @@ func drive(prop, tier string) int {
 	e := &driverEnv{prop: prop, tier: tier}
 	e.base = envUint("VERIF_SEED", 20260101)
 	e.raceBin = os.Getenv("CVSSSIM_RACE_BIN")
+	e.raceAlt = os.Getenv("CVSSSIM_RACE_ALT_BIN")
 	e.noraceBin = os.Getenv("CVSSSIM_NORACE_BIN")
 	e.sites = os.Getenv("CVSSSIM_SITES")
 	e.verif = os.Getenv("CVSSSIM_VERIF")
@@ -450,6 +465,7 @@ func drive(prop, tier string) int {
 		fmt.Fprintln(os.Stderr, "drive: unknown property", prop)
 		return 2
 	}
+	e.batch = pl.batch
 	known := loadKnown(filepath.Join(e.verif, "known_findings.jsonl"), prop)
 	a := newAgg()
 	var infra []string
@@ -467,7 +483,7 @@ func drive(prop, tier string) int {
 				defer wg.Done()
 				for j := range jobs {
 					from, n := j.from, j.n
-					for n > 0 {
+					for n > 0 && atomic.LoadInt32(&e.watchdogs) < 3 {
 						crashed, stderr, err := e.runWorker(a, race, from, n, pl.watchdog)
 						if err == nil {
 							break
@@ -479,6 +495,7 @@ func drive(prop, tier string) int {
 							break
 						}
 						if strings.Contains(stderr, "WATCHDOG") {
+							atomic.AddInt32(&e.watchdogs, 1)
 							infraMu.Lock()
 							infra = append(infra, fmt.Sprintf("run %d: watchdog: %s", crashed, clip(stderr, 300)))
 							infraMu.Unlock()
@@ -498,7 +515,7 @@ func drive(prop, tier string) int {
 		next := firstIndex
 		if runs > 0 {
 			end := firstIndex + runs
-			for next < end {
+			for next < end && atomic.LoadInt32(&e.watchdogs) < 3 {
 				n := pl.batch
 				if next+n > end {
 					n = end - next
@@ -507,7 +524,7 @@ func drive(prop, tier string) int {
 				next += n
 			}
 		} else {
-			for time.Now().Before(deadline) {
+			for time.Now().Before(deadline) && atomic.LoadInt32(&e.watchdogs) < 3 {
 				jobs <- job{next, pl.batch}
 				next += pl.batch
 			}
@@ -668,6 +685,8 @@ func drive(prop, tier string) int {
 // replay file.
 func (e *driverEnv) confirmAndMinimise(pl plan, f found) (path string, sigs []string, detail string) {
 	race := pl.race
+	e.useAlt = f.alt
+	defer func() { e.useAlt = false }()
 	replayDir := os.Getenv("VERIF_REPLAY_DIR")
 	if replayDir == "" {
 		replayDir = filepath.Join(e.verif, "replays")
@@ -712,6 +731,12 @@ func (e *driverEnv) confirmAndMinimise(pl plan, f found) (path string, sigs []st
 		target = f.sig
 	}
 	d.Expect = target
+	if race {
+		d.Build = "race"
+		if f.alt {
+			d.Build = "race-stockpool"
+		}
+	}
 	d.OrigOps = d.nOps()
 	d.OrigSw = len(d.Sched.Explicit)
 	stillFails := func(c *RunDesc) bool {
